@@ -42,6 +42,9 @@ def _per_file(vs):
     return Counter(_k(v) for v in vs if not v.rule_id.startswith(CROSS))
 
 
+_TIER = {"t": "quick"}
+
+
 def h_union(ctx):
     import src.linter_config.ignore as ign
     from src.orchestrator.core import Orchestrator
@@ -52,6 +55,8 @@ def h_union(ctx):
     if kind == "file-list":
         # membership bits for 8 of the files; the remaining ones are always in the list
         free = {"magic.py", "dup1.py", "dup2.py", "aliasmod.py", "rows.py", "unwrap.rs", "nest.ts", "selfdup.py"}
+        if _TIER["t"] != "quick":
+            free |= {"printy.js", "srp.py", "strg1.py", "strg2.py"}
         chosen = [f for f in allf if (f.name not in free) or ctx.flag("in_" + f.name)]
         got = _per_file(Orchestrator(project_root=d).lint_files(chosen))
     elif kind == "directory":
@@ -106,10 +111,11 @@ ASSUMPTIONS = (
 
 
 def obligations(tier):
+    _TIER["t"] = tier
     return [
         Ob(name="K1-directory-and-file-list-equal-union", engine="pathex", harness=h_union,
            functions=["Orchestrator.lint_files/lint_directory/lint_file", "_collect_files_fast", "every per-file rule's check()"],
-           bounds="forked: every subset of 8 of the %d project files as an explicit list, the rest always included (membership bits are solver booleans enumerated by forking), the directory, the directory non-recursively" % (len(FILES) + 1),
+           bounds="forked: every subset of 8 (thorough: 12) of the %d project files as an explicit list, the rest always included (membership bits are solver booleans enumerated by forking), the directory, the directory non-recursively" % (len(FILES) + 1),
            timeout=900, workers=14, must_cover=("nonempty",)),
         Ob(name="K1b-cli-equals-library", engine="pathex", harness=h_cli_vs_api,
            functions=["every linter command (in-process CLI)", "Linter.lint/_lint_path/_filter_violations", "each command's _run_*_lint filter"],
